@@ -1,10 +1,11 @@
 (* C03 part B -- the guarded equivalence lifted over pipelines and through $facet, for the
-   stages $match, $sort, $skip, $limit, $count, $unwind (without includeArrayIndex), $facet *)
+   stages $match, $sort, $skip, $limit, $count, $unwind (without includeArrayIndex),
+   $addFields / $set, $replaceRoot, $lookup, $facet *)
 From Coq Require Import ZArith List String Bool Ascii Lia Permutation.
 From Verif Require Import Value PyEq BsonOrder Path Update Filter FilterSpec FilterGuard Coll Cursor
      Expr ExprSpec Pipeline PipelineSpec PipelineGuard.
 From Verif Require Import C01Values C05Values.
-From Verif Require Import C03Base C03Laws C03Unwind C03Stages C03StageUnwind.
+From Verif Require Import C03Base C03Laws C03Unwind C03Stages C03StageUnwind C03StageExpr C03StageLookup.
 Import ListNotations.
 Open Scope Z_scope.
 Open Scope string_scope.
@@ -13,7 +14,9 @@ Open Scope list_scope.
 (* ------------------------------------------------------------ the stages covered *)
 Definition basic_covered (op : string) (o : value) : bool :=
   (op =? "$match") || (op =? "$skip") || (op =? "$limit") || (op =? "$count")
-  || ((op =? "$sort") && sort_covered o) || ((op =? "$unwind") && unwind_covered o).
+  || ((op =? "$sort") && sort_covered o) || ((op =? "$unwind") && unwind_covered o)
+  || (op =? "$addFields") || (op =? "$set") || (op =? "$replaceRoot")
+  || ((op =? "$lookup") && lookup_covered o).
 
 Definition covered_stages_of (cv : value -> string -> bool) :=
   fix stages_go (stages : list value) : bool :=
@@ -33,7 +36,8 @@ Definition covered_facets_of (cv : value -> string -> bool) :=
 
 (* the operators of the pipeline (and of the sub-pipelines of $facet, recursively) are among
    $match, $sort (modelled key paths), $skip, $limit, $count, $unwind (no includeArrayIndex),
-   $facet; a malformed stage is accepted here: the specification leaves it undecided *)
+   $addFields, $set, $replaceRoot, $lookup (localField / foreignField form), $facet; a
+   malformed stage is accepted here: the specification leaves it undecided *)
 Fixpoint covered (o : value) (op : string) {struct o} : bool :=
   if op =? "$facet" then
     match o with
@@ -183,6 +187,11 @@ Proof.
     apply stage_sort; assumption.
   - apply andb_true_iff in Hc. destruct Hc as [Hop Hc]. apply String.eqb_eq in Hop. subst.
     apply stage_unwind; assumption.
+  - apply String.eqb_eq in Hc. subst. apply stage_add_fields. exact Hg.
+  - apply String.eqb_eq in Hc. subst. apply stage_set. exact Hg.
+  - apply String.eqb_eq in Hc. subst. apply stage_replace_root. exact Hg.
+  - apply andb_true_iff in Hc. destruct Hc as [Hop Hc]. apply String.eqb_eq in Hop. subst.
+    apply stage_lookup; assumption.
 Qed.
 
 Definition stages_ok (db : dbmap) (stages : list value) : Prop :=
